@@ -2,13 +2,13 @@
 UNITS = ['u_script', 'u_list', 'u_jobs', 'u_tok', 'u_plan', 'u_exp1', 'u_calc', 'u_exp2', 'u_wait', 'u_fd', 'u_env', 'u_args', 'u_proc', 'u_exp3', 'u_bfd', 'u_blt', 'u_jcmd', 'u_read', 'u_cmpl', 'u_bsh', 'u_sig']
 
 PROPERTY_UNITS = {
-    'C03': ['u_list', 'u_tok', 'u_fd', 'u_wait', 'u_script', 'u_exp2', 'u_sig'],
+    'C03': ['u_list', 'u_tok', 'u_fd', 'u_wait', 'u_script', 'u_exp2', 'u_sig', 'u_bfd'],
     'C06': ['u_jobs', 'u_wait', 'u_jcmd', 'u_sig'],
     'C05': ['u_script', 'u_list', 'u_jobs', 'u_tok', 'u_plan', 'u_exp1', 'u_calc', 'u_exp2', 'u_wait', 'u_fd', 'u_env', 'u_args', 'u_proc', 'u_exp3', 'u_bfd', 'u_blt', 'u_jcmd', 'u_read', 'u_cmpl', 'u_bsh', 'u_sig'],
     'C01': ['u_plan', 'u_exp1', 'u_exp2', 'u_exp3', 'u_tok', 'u_fd'],
     'C13': ['u_plan', 'u_exp1', 'u_exp2', 'u_exp3'],
     'C12': ['u_exp1', 'u_exp2'],
-    'C10': ['u_exp2', 'u_env', 'u_script'],
+    'C10': ['u_exp2', 'u_env', 'u_script', 'u_list'],
     'C11': ['u_exp3', 'u_exp2', 'u_blt', 'u_plan', 'u_args', 'u_fd', 'u_exp1', 'u_bfd', 'u_script'],
     'C07': ['u_fd', 'u_proc', 'u_plan', 'u_jobs', 'u_wait', 'u_jcmd', 'u_sig'],
     'C15': ['u_args', 'u_script', 'u_list', 'u_env', 'u_bsh'],
